@@ -487,7 +487,12 @@ fn rendering(acc: &mut Acc) {
             for rid in [None, Some("r1"), Some("<r&2>")] {
                 for status in [None, Some(418u16)] {
                     for headers in 0..4usize {
-                        for via in ["to_http_response", "backend"] {
+                        for via in ["to_http_response", "backend", "backend-keep-alive"] {
+                            // (the keep-alive path of CompleteMultipartUpload renders a late error into a body that has already
+                            //  begun; one message shape per code is enough for the path, the table product runs on the other two)
+                            if via == "backend-keep-alive" && (mi > 4 || rid == Some("<r&2>")) {
+                                continue;
+                            }
                             let id = || format!("render/{code}/msg{mi}/rid={rid:?}/status={status:?}/headers={headers}/{via}");
                             if !a.selected(&id) {
                                 continue;
@@ -507,6 +512,24 @@ fn rendering(acc: &mut Acc) {
                                         continue;
                                     }
                                 }
+                            } else if via == "backend-keep-alive" {
+                                let (c2, m2, r2) = (code_txt.to_owned(), msg.map(str::to_owned), rid.map(str::to_owned));
+                                let script: Script = Arc::new(move |_op, _input| {
+                                    let e = make_error(&c2, m2.as_deref(), r2.as_deref(), status, headers);
+                                    Box::pin(async move {
+                                        tokio::time::sleep(std::time::Duration::from_millis(150)).await;
+                                        Some(Box::new(Err::<s3s::S3Response<s3s::dto::CompleteMultipartUploadOutput>, S3Error>(e)) as AnyBox)
+                                    })
+                                });
+                                let (svc, _log) = SvcCfg { script: Some(script), ..Default::default() }.build();
+                                let Some(base) = crate::sdk::base_requests().iter().find(|b| b.op == "CompleteMultipartUpload") else { continue };
+                                match call(&svc, &base.req, body_one_frame(&base.body)) {
+                                    CallOutcome::Response(r) => r,
+                                    other => {
+                                        a.fail("C04/render/no-response-for-backend-error", ci, id(), other.verdict(), json!({}));
+                                        continue;
+                                    }
+                                }
                             } else {
                                 let (c2, m2, r2) = (code_txt.to_owned(), msg.map(str::to_owned), rid.map(str::to_owned));
                                 let script: Script = Arc::new(move |_op, _input| {
@@ -523,8 +546,12 @@ fn rendering(acc: &mut Acc) {
                                 }
                             };
                             a.nontrivial(fnv(id().as_bytes()));
-                            let want_status = status.or_else(|| tbl.flatten()).unwrap_or(500);
+                            let keep_alive = via == "backend-keep-alive";
+                            let want_status = if keep_alive { 200 } else { status.or_else(|| tbl.flatten()).unwrap_or(500) };
                             let mut bad: Vec<(String, String)> = Vec::new();
+                            if resp.body_error.is_some() {
+                                bad.push(("body-stream-fails".into(), format!("the response body failed: {:?}", resp.body_error)));
+                            }
                             if resp.status.as_u16() != want_status {
                                 let k = if status.is_some() { "status-override-ignored".to_owned() } else { format!("status-differs-from-error-table/{code_txt}") };
                                 bad.push((k, format!("status {} instead of {want_status}", resp.status.as_u16())));
@@ -543,13 +570,13 @@ fn rendering(acc: &mut Acc) {
                                 }
                                 Err(e) => bad.push(("document-malformed".into(), format!("{e}: {:?}", resp.body_str()))),
                             }
-                            if headers > 0 && resp.headers.get("location").map(|v| v.as_bytes()) != Some(b"http://example.com/elsewhere") {
+                            if !keep_alive && headers > 0 && resp.headers.get("location").map(|v| v.as_bytes()) != Some(b"http://example.com/elsewhere") {
                                 bad.push(("headers-dropped".into(), "Location header attached to the error is missing".into()));
                             }
-                            if headers > 1 && (resp.headers.get("x-amz-bucket-region").is_none() || resp.headers.get("x-extra").is_none()) {
+                            if !keep_alive && headers > 1 && (resp.headers.get("x-amz-bucket-region").is_none() || resp.headers.get("x-extra").is_none()) {
                                 bad.push(("headers-dropped".into(), "second/third attached header missing".into()));
                             }
-                            if headers > 2 {
+                            if !keep_alive && headers > 2 {
                                 let cookies: Vec<&[u8]> = resp.headers.get_all("set-cookie").iter().map(|v| v.as_bytes()).collect();
                                 let extras: Vec<&[u8]> = resp.headers.get_all("x-extra").iter().map(|v| v.as_bytes()).collect();
                                 if !(cookies.contains(&&b"a=1"[..]) && cookies.contains(&&b"b=2"[..]) && extras.contains(&&b"1"[..]) && extras.contains(&&b"2"[..])) {
